@@ -6,6 +6,7 @@ Every table mentioned here is REGENERATED from /repo/src on every run
 (`spec/registry.json` → `CoapLite.Spec.Registry`).  All statements quantify
 over the whole number space (unbounded `Nat`, a fortiori all u8/u16 values).
 -/
+import CoapLite.Lemmas.Shape.Api
 import CoapLite.Model.Header
 import CoapLite.Spec.Registry
 import CoapLite.Lemmas.Shape.Packet
@@ -190,5 +191,13 @@ theorem state_shape_matches_source :
     Shapes.header = [("code", "MessageClass"), ("message_id", "u16"), ("ver_type_tkl", "u8")] ∧
     Shapes.headerRaw = [("code", "u8"), ("message_id", "u16"), ("ver_type_tkl", "u8")] :=
   ⟨ShapeTie.no_global_state, ShapeTie.packet, ShapeTie.header, ShapeTie.headerRaw⟩
+
+/-- the public entry points of the modelled source files – re-read from /repo/src on every run – are
+exactly the ones the model was written against (`Lemmas/Shape/Api.lean`): a new public way to change the
+state this property is about, or a receiver that became `&mut self`, breaks this theorem -/
+theorem api_surface_matches_source :
+    Shapes.apiPacket = ShapeTie.expectedApiPacket ∧
+    Shapes.apiHeader = ShapeTie.expectedApiHeader :=
+  ⟨ShapeTie.apiPacket, ShapeTie.apiHeader⟩
 
 end CoapLite.C05
